@@ -887,6 +887,7 @@ TRANSPARENT = rx(r"(::to_owned|::clone|Deref::deref|DerefMut::deref_mut|::as_ref
                  r"Try::branch|::unpack|::pack|::shannons|Arc::<.*>::new|Atomic(U64|::<u64>)::new|::into_inner|::get_ref|::as_slice|::as_u64|::to_vec|::full_value)$")
 ARITH_CALL = rx(r"(arith::(Add|Sub|Mul|Div|Rem)(<.*>)?::(add|sub|mul|div|rem)|::(saturating|checked|wrapping|overflowing)_(add|sub|mul|div|pow)|cmp::(max|min)|Ord::(max|min)|"
                 r"::(safe_add|safe_sub|safe_mul|safe_div|safe_mul_ratio)|::(pow|abs_diff))$")
+VALUE_COMB_CANON = rx(r"(Result|Option)::<.*>::(map_or|map_or_else|is_some_and|is_none_or|is_ok_and|is_err_and|filter|or|and|xor|zip|unwrap_or|ok_or)$|bool::then(_some)?$")
 VALUE_COMB = rx(r"(Result|Option)::<.*>::(and_then|map|map_err|ok_or|ok_or_else|or_else|unwrap_or|unwrap_or_else|unwrap_or_default)$|::try_from$|::try_into$")
 ARITH_OPS = {"Add", "Sub", "Mul", "Div", "Rem", "AddWithOverflow", "SubWithOverflow", "MulWithOverflow", "AddUnchecked", "SubUnchecked", "MulUnchecked", "Shl", "Shr", "BitAnd", "BitOr", "BitXor"}
 
@@ -990,14 +991,17 @@ def expr_sig(body, op, depth=0, seen=None, out=None):
             elif TRANSPARENT.search(c.callee):
                 if c.args:
                     expr_sig(body, c.args[0], depth + 1, seen, out)
-            elif VALUE_COMB.search(c.callee):
+            elif VALUE_COMB.search(c.callee) or (CANON_TRY and VALUE_COMB_CANON.search(c.callee)):
                 # x.and_then(|v| f(v)) / x.map(..) / x.ok_or(e): the value is the receiver pushed through the closure
                 if c.args:
                     expr_sig(body, c.args[0], depth + 1, seen, out)
                 for a in c.args[1:]:
-                    if "p" in a:
-                        for cb in closure_of_local(body, a["p"][0]):
-                            expr_sig(cb, {"p": [0, []]}, depth + 1, None, out)
+                    cbs = closure_of_local(body, a["p"][0]) if "p" in a else []
+                    for cb in cbs:
+                        expr_sig(cb, {"p": [0, []]}, depth + 1, None, out)
+                    if CANON_TRY and not cbs:
+                        # the default of `unwrap_or(d)` / `map_or(d, f)` / `ok_or(e)` is part of the value
+                        expr_sig(body, a, depth + 1, seen, out)
             else:
                 out.append("leaf:call:" + nm)
     return out
@@ -1245,7 +1249,10 @@ def ret_labels(body, start, local=0):
             nm = "call:" + "::".join(re.sub(r"<[^<>]*>", "", c.callee).split("::")[-2:])
             if CANON_TRY and nm == "call:FromResidual::from_residual":
                 nm = "agg:Result::Err"        # `return Err(e.into())` written as `?`
-            out.add((nm,) + tuple(form(body, a) for a in c.args))
+            fa = tuple(form(body, a) for a in c.args)
+            if CANON_TRY and nm in ("call:PartialOrd::gt", "call:PartialOrd::ge") and len(fa) == 2:
+                nm, fa = ("call:PartialOrd::lt" if nm.endswith("gt") else "call:PartialOrd::le"), (fa[1], fa[0])     # `b > a` is `a < b`
+            out.add((nm,) + fa)
             continue
         if t.get("k") == "return":
             out.add("<unset>")
